@@ -76,7 +76,7 @@ def run_stamp(case):
         stamps = vc_stamps(run, case)
     # the implementation computes stamps in floating point; only with dyadic weights/vticks in the exact domain do its stamps
     # equal the reference's Fractions bit for bit - otherwise stamps closer than 1e-9 (relative) are treated as ties
-    nice = (1, 2, 4, 0.5, 0.25, 0.125, 0.0625)
+    nice = (1, 2, 4, 0.5, 0.25, 0.125, 0.0625, 0)
     dyadic = bool(exact) and all(v in nice for _, v in case["table"])
     tol = 0 if dyadic else TOL
     disagree = 0
@@ -136,7 +136,7 @@ def strategy_for(kind):
         if kind == "WFQ":
             val = st.sampled_from([1, 2, 3, 4, 5, 1.5, 0.5])
         else:
-            val = st.sampled_from([1 / 8, 1 / 4, 1 / 2, 1, 2, 1 / 16, 0.3])
+            val = st.sampled_from([1 / 8, 1 / 4, 1 / 2, 1, 2, 1 / 16, 0.3, 0])
 
         def build(n):
             flows = st.permutations(list(range(6))).map(lambda p: list(p)[:n])
